@@ -13,6 +13,14 @@ pipeline for these lines: bucketing (`base_diff`/`mark_unchanged`/`make_pre`) an
 this order from `S_old` leaves exactly `S_new`.  `KeepsCommon`: every state on the way contains
 `S_old ∩ S_new`.  Both are proved for **every permutation** `cs` of the emitted rows, so the final
 ordering of the patch (C08) cannot break them.
+
+State of the code (HEAD of /repo): the three defects this check found are repaired — 679839a
+(`multi_all`: `undo … all` with unchanged sibling lines), 7d0d905 (`single`: whole-key reverse command
+with unchanged sibling lines), 7afbb71 (huawei.rul: pool lines keyed by their first id).  The Huawei
+theorems therefore hold for all three modes and any number of lines per key; the two `…_old_rule_false`
+theorems are about the *former* rule / keying (explicitly named variants), kept to document what the
+repairs changed.  The one statement that is still false is "`single` always emits"
+(`C11_huawei_always_emits_false`): it refuses, by its own assertion, more than one changed line per side.
 -/
 import AnnetModel.Lemmas.Vlan
 
@@ -22,15 +30,18 @@ Annet.Vlan.C11_expand_collapse_cisco
 Annet.Vlan.C11_changed_lines_suffice
 Annet.Vlan.C11_written_lines_parse_huawei
 Annet.Vlan.C11_written_lines_parse_cisco
+Annet.Vlan.C11_huawei_exact
+Annet.Vlan.C11_huawei_never_removes_common
 Annet.Vlan.C11_huawei_multi_exact
 Annet.Vlan.C11_huawei_multi_never_removes_common
-Annet.Vlan.C11_huawei_exact_false
-Annet.Vlan.C11_huawei_never_removes_common_false
-Annet.Vlan.C11_huawei_exact_partial
-Annet.Vlan.C11_huawei_never_removes_common_partial
+Annet.Vlan.C11_huawei_single_refuses_many
+Annet.Vlan.C11_huawei_always_emits_false
+Annet.Vlan.C11_huawei_always_emits_partial
+Annet.Vlan.C11_huawei_single_old_rule_false
 Annet.Vlan.C11_cisco_exact
 Annet.Vlan.C11_cisco_never_removes_common
-Annet.Vlan.C11_pool_keyed_by_first_id_false
+Annet.Vlan.C11_pool_one_list
+Annet.Vlan.C11_pool_keyed_by_first_id_old_rule_false
 Annet.Vlan.C11_vlan_diff_keeps_batch_rows
 Annet.Vlan.C11_vlan_diff_never_removes_batched_vlan
 -/
@@ -134,8 +145,48 @@ theorem C11_written_lines_parse_cisco (p : CRow) (hp0 : p ≠ []) (hlast : p.get
 
 /-! ## Huawei -/
 
-/-- `multi` (`vlan batch`, …) and `multi_all` (`port trunk allow-pass vlan`, `port hybrid
-tagged/untagged vlan`), full strength: any number of lines on each side, any sets. -/
+/-- **All three modes** — `single` (`instance N vlan`), `multi` (`vlan batch`, `vlan` of a pool) and
+`multi_all` (`port trunk allow-pass vlan`, `port hybrid tagged/untagged vlan`) — any number of lines
+on each side, any sets, full strength.  Either the logic emits commands that, in every order, leave
+exactly `S_new`; or — only in mode `single`, and exactly when more than one line of the key changed
+on one side — it raises its own AssertionError ("Too many actions", huawei/vlandb.py:54-56) and emits
+nothing at all.  No "at most one line per key" restriction: unchanged sibling lines are fine in all
+modes (repairs 679839a for `multi_all`, 7d0d905 for `single`). -/
+theorem C11_huawei_exact (m : HMode) (p rev : HRow) (old new : List HRow) (vl : HRow → List Nat)
+    (hp : p.head? ≠ some (.w "undo"))
+    (hparse : ∀ r, r ∈ old ∨ r ∈ new → hParseVlancfg r = .ok (p, vl r))
+    (hold : Disj vl old) (hnew : Disj vl new)
+    (hrevAll : m = .multiAll → rev = .w "undo" :: p)
+    (hrevSingle : m = .single → ∀ t, rev ≠ p ++ t ∧ rev ≠ .w "undo" :: (p ++ t)) :
+    (∃ ys, hLeaf m rev old new = .ok ys ∧
+      ∀ cs, cs.Perm (ys.map (·.row)) →
+        EndsIn (interpH (hDevice m p rev)) cs (setOf vl old) (setOf vl new)) ∨
+    (m = .single ∧
+      (1 < (leafBuckets old new).removed.length ∨ 1 < (leafBuckets old new).added.length) ∧
+      hLeaf m rev old new = .error .assertion) := by
+  rcases huawei_total m p rev old new vl hp hparse hold hnew hrevAll hrevSingle with ⟨ys, h1, h2⟩ | h
+  · exact .inl ⟨ys, h1, fun cs hc => (h2 cs hc).1⟩
+  · exact .inr h
+
+/-- … and on the way no VLAN that is in both sets ever disappears (same generality). -/
+theorem C11_huawei_never_removes_common (m : HMode) (p rev : HRow) (old new : List HRow)
+    (vl : HRow → List Nat)
+    (hp : p.head? ≠ some (.w "undo"))
+    (hparse : ∀ r, r ∈ old ∨ r ∈ new → hParseVlancfg r = .ok (p, vl r))
+    (hold : Disj vl old) (hnew : Disj vl new)
+    (hrevAll : m = .multiAll → rev = .w "undo" :: p)
+    (hrevSingle : m = .single → ∀ t, rev ≠ p ++ t ∧ rev ≠ .w "undo" :: (p ++ t)) :
+    (∃ ys, hLeaf m rev old new = .ok ys ∧
+      ∀ cs, cs.Perm (ys.map (·.row)) →
+        KeepsCommon (interpH (hDevice m p rev)) cs (setOf vl old) (setOf vl new)) ∨
+    (m = .single ∧
+      (1 < (leafBuckets old new).removed.length ∨ 1 < (leafBuckets old new).added.length) ∧
+      hLeaf m rev old new = .error .assertion) := by
+  rcases huawei_total m p rev old new vl hp hparse hold hnew hrevAll hrevSingle with ⟨ys, h1, h2⟩ | h
+  · exact .inl ⟨ys, h1, fun cs hc => (h2 cs hc).2⟩
+  · exact .inr h
+
+/-- `multi` and `multi_all` never raise: commands are always emitted, and they are exact. -/
 theorem C11_huawei_multi_exact (m : HMode) (hm : m ≠ .single) (p rev : HRow) (old new : List HRow)
     (vl : HRow → List Nat)
     (hp : p.head? ≠ some (.w "undo"))
@@ -162,8 +213,16 @@ theorem C11_huawei_multi_never_removes_common (m : HMode) (hm : m ≠ .single) (
     (fun h => absurd h hm)
   exact ⟨ys, h1, fun cs hc => (h2 cs hc).2⟩
 
-/-- the statement of `C11_huawei_multi_exact` for all three modes -/
-def HuaweiExactFull : Prop :=
+/-- `single` refuses — AssertionError, no command — as soon as more than one line of the key changed
+on one side, whatever the lines are (the code's own assertion, lines 54-56; by design). -/
+theorem C11_huawei_single_refuses_many (rev : HRow) (old new : List HRow)
+    (hlen : 1 < (leafBuckets old new).removed.length ∨ 1 < (leafBuckets old new).added.length) :
+    hLeaf .single rev old new = .error .assertion :=
+  huawei_single_refuses rev old new hlen
+
+/-- "commands are always emitted", for all three modes (the statement of `C11_huawei_multi_exact`
+without `m ≠ .single`) -/
+def HuaweiAlwaysEmits : Prop :=
   ∀ (m : HMode) (p rev : HRow) (old new : List HRow) (vl : HRow → List Nat),
     p.head? ≠ some (.w "undo") →
     (∀ r, r ∈ old ∨ r ∈ new → hParseVlancfg r = .ok (p, vl r)) →
@@ -174,18 +233,7 @@ def HuaweiExactFull : Prop :=
       ∀ cs, cs.Perm (ys.map (·.row)) →
         EndsIn (interpH (hDevice m p rev)) cs (setOf vl old) (setOf vl new)
 
-def HuaweiKeepsFull : Prop :=
-  ∀ (m : HMode) (p rev : HRow) (old new : List HRow) (vl : HRow → List Nat),
-    p.head? ≠ some (.w "undo") →
-    (∀ r, r ∈ old ∨ r ∈ new → hParseVlancfg r = .ok (p, vl r)) →
-    Disj vl old → Disj vl new →
-    (m = .multiAll → rev = .w "undo" :: p) →
-    (m = .single → ∀ t, rev ≠ p ++ t ∧ rev ≠ .w "undo" :: (p ++ t)) →
-    ∃ ys, hLeaf m rev old new = .ok ys ∧
-      ∀ cs, cs.Perm (ys.map (·.row)) →
-        KeepsCommon (interpH (hDevice m p rev)) cs (setOf vl old) (setOf vl new)
-
-/-- witness: `instance 1 vlan 2` + `instance 1 vlan 7` → `instance 1 vlan 2` under `single` -/
+/-- witness lines: `instance 1 vlan 2` + `instance 1 vlan 7` (key `1` of `instance * vlan`) -/
 def wP : HRow := [.w "instance", .n 1, .w "vlan"]
 def wRev : HRow := [.w "undo", .w "instance", .n 1]
 def wOld : List HRow := [wP ++ [.n 2], wP ++ [.n 7]]
@@ -217,65 +265,61 @@ theorem wit_hyps :
   · intro t
     constructor <;> intro h <;> simp [wRev, wP] at h
 
-/-- **False at full strength** (this is the recorded finding
-`huawei:single:whole-key-undo-with-unchanged-lines`): with `single` and one of two lines of the same
-key removed, the code emits `undo instance 1`, which deletes the unchanged line's VLANs too
-(huawei/vlandb.py:63-65 does not look at `diff[Op.UNCHANGED]`). -/
-theorem C11_huawei_exact_false : ¬ HuaweiExactFull := by
+/-- **Still false**: `single` does not always emit.  Both lines of the key removed at once
+(`instance 1 vlan 2` + `instance 1 vlan 7` → nothing): AssertionError "Too many actions".  This is a
+refusal, not a wrong patch (no command is produced); `C11_huawei_exact` states exactly when it happens. -/
+theorem C11_huawei_always_emits_false : ¬ HuaweiAlwaysEmits := by
   intro h
-  obtain ⟨h1, h2, h3, h4, h5⟩ := wit_hyps
-  obtain ⟨ys, hys, hall⟩ := h .single wP wRev wOld wNew idsOf h1 h2 h3 h4 (fun e => by cases e) (fun _ => h5)
-  have hy : hLeaf .single wRev wOld wNew = .ok [⟨false, wRev, none⟩] := rfl
-  rw [hy] at hys
+  obtain ⟨h1, h2, h3, _, h5⟩ := wit_hyps
+  obtain ⟨ys, hys, _⟩ := h .single wP wRev wOld [] idsOf h1
+    (fun r hr => h2 r (hr.elim .inl (fun h => by simp at h))) h3
+    (fun a ha => by simp at ha) (fun e => by cases e) (fun _ => h5)
+  have he : hLeaf .single wRev wOld [] = .error .assertion :=
+    C11_huawei_single_refuses_many wRev wOld [] (.inl (by decide))
+  rw [he] at hys
   cases hys
-  obtain ⟨S', hr, hm⟩ := hall [wRev] (List.Perm.refl _)
-  have hrun : runDev (interpH (hDevice .single wP wRev)) [wRev] (setOf idsOf wOld) = some [] := rfl
-  rw [hrun] at hr
-  cases hr
-  have : (2 : Nat) ∈ setOf idsOf wNew := by decide
-  exact absurd ((hm 2).mpr this) (by simp)
 
-theorem C11_huawei_never_removes_common_false : ¬ HuaweiKeepsFull := by
-  intro h
-  obtain ⟨h1, h2, h3, h4, h5⟩ := wit_hyps
-  obtain ⟨ys, hys, hall⟩ := h .single wP wRev wOld wNew idsOf h1 h2 h3 h4 (fun e => by cases e) (fun _ => h5)
-  have hy : hLeaf .single wRev wOld wNew = .ok [⟨false, wRev, none⟩] := rfl
-  rw [hy] at hys
-  cases hys
-  obtain ⟨T, ht, hk⟩ := hall [wRev] (List.Perm.refl _)
-  have htr : traceDev (interpH (hDevice .single wP wRev)) [wRev] (setOf idsOf wOld) = some [[2, 7], []] := rfl
-  rw [htr] at ht
-  cases ht
-  exact absurd (hk [] (by simp) 2 (by decide) (by decide)) (by simp)
-
-/-- What does hold for all three modes: `single` needs at most one line per key on each side
-(`hsingle`), which is what its own assertion "Too many actions" presupposes. -/
-theorem C11_huawei_exact_partial (m : HMode) (p rev : HRow) (old new : List HRow) (vl : HRow → List Nat)
-    (hp : p.head? ≠ some (.w "undo"))
-    (hparse : ∀ r, r ∈ old ∨ r ∈ new → hParseVlancfg r = .ok (p, vl r))
-    (hold : Disj vl old) (hnew : Disj vl new)
-    (hsingle : m = .single → old.length ≤ 1 ∧ new.length ≤ 1)
-    (hrevAll : m = .multiAll → rev = .w "undo" :: p)
-    (hrevSingle : m = .single → ∀ t, rev ≠ p ++ t ∧ rev ≠ .w "undo" :: (p ++ t)) :
-    ∃ ys, hLeaf m rev old new = .ok ys ∧
-      ∀ cs, cs.Perm (ys.map (·.row)) →
-        EndsIn (interpH (hDevice m p rev)) cs (setOf vl old) (setOf vl new) := by
-  obtain ⟨ys, h1, h2⟩ := huawei_core m p rev old new vl hp hparse hold hnew hsingle hrevAll hrevSingle
-  exact ⟨ys, h1, fun cs hc => (h2 cs hc).1⟩
-
-theorem C11_huawei_never_removes_common_partial (m : HMode) (p rev : HRow) (old new : List HRow)
+/-- What does hold for all three modes about emission: `single` needs at most one *changed* line of
+the key on each side (`hsingle`; unchanged lines do not count) — then commands are emitted, exact and
+keeping the common VLANs. -/
+theorem C11_huawei_always_emits_partial (m : HMode) (p rev : HRow) (old new : List HRow)
     (vl : HRow → List Nat)
     (hp : p.head? ≠ some (.w "undo"))
     (hparse : ∀ r, r ∈ old ∨ r ∈ new → hParseVlancfg r = .ok (p, vl r))
     (hold : Disj vl old) (hnew : Disj vl new)
-    (hsingle : m = .single → old.length ≤ 1 ∧ new.length ≤ 1)
+    (hsingle : m = .single →
+      (leafBuckets old new).removed.length ≤ 1 ∧ (leafBuckets old new).added.length ≤ 1)
     (hrevAll : m = .multiAll → rev = .w "undo" :: p)
     (hrevSingle : m = .single → ∀ t, rev ≠ p ++ t ∧ rev ≠ .w "undo" :: (p ++ t)) :
     ∃ ys, hLeaf m rev old new = .ok ys ∧
       ∀ cs, cs.Perm (ys.map (·.row)) →
-        KeepsCommon (interpH (hDevice m p rev)) cs (setOf vl old) (setOf vl new) := by
-  obtain ⟨ys, h1, h2⟩ := huawei_core m p rev old new vl hp hparse hold hnew hsingle hrevAll hrevSingle
-  exact ⟨ys, h1, fun cs hc => (h2 cs hc).2⟩
+        EndsIn (interpH (hDevice m p rev)) cs (setOf vl old) (setOf vl new) ∧
+        KeepsCommon (interpH (hDevice m p rev)) cs (setOf vl old) (setOf vl new) :=
+  huawei_core m p rev old new vl hp hparse hold hnew hsingle hrevAll hrevSingle
+
+/-- Why the repair 7d0d905 matters (a statement about the **old rule** `hLeafSingleOldRule`, not
+about the shipped code): with one of two lines of the key removed and none added, the old rule
+emitted the whole-key reverse command `undo instance 1`, which also deletes the unchanged line's
+VLAN 2 — the final set is wrong and a common VLAN is lost; the repaired `single` emits
+`undo instance 1 vlan 7` (and `C11_huawei_exact` applies to it).  Former finding
+`huawei:single:whole-key-undo-with-unchanged-lines`; the harness keeps the input as a regression. -/
+theorem C11_huawei_single_old_rule_false :
+    hLeafSingleOldRule wRev wOld wNew = .ok [⟨false, wRev, none⟩] ∧
+    ¬ EndsIn (interpH (hDevice .single wP wRev)) [wRev] (setOf idsOf wOld) (setOf idsOf wNew) ∧
+    ¬ KeepsCommon (interpH (hDevice .single wP wRev)) [wRev] (setOf idsOf wOld) (setOf idsOf wNew) ∧
+    hLeaf .single wRev wOld wNew = .ok [⟨false, .w "undo" :: (wP ++ [.n 7]), none⟩] := by
+  refine ⟨rfl, ?_, ?_, rfl⟩
+  · rintro ⟨S', hr, hm⟩
+    have hrun : runDev (interpH (hDevice .single wP wRev)) [wRev] (setOf idsOf wOld) = some [] := rfl
+    rw [hrun] at hr
+    cases hr
+    have : (2 : Nat) ∈ setOf idsOf wNew := by decide
+    exact absurd ((hm 2).mpr this) (by simp)
+  · rintro ⟨T, ht, hk⟩
+    have htr : traceDev (interpH (hDevice .single wP wRev)) [wRev] (setOf idsOf wOld) = some [[2, 7], []] := rfl
+    rw [htr] at ht
+    cases ht
+    exact absurd (hk [] (by simp) 2 (by decide) (by decide)) (by simp)
 
 /-! ## Cisco -/
 
@@ -306,14 +350,30 @@ theorem C11_cisco_never_removes_common {χ : Type} (m : CMode) (catalyst : Bool)
   obtain ⟨ys, h1, h2⟩ := cisco_core (χ := χ) m catalyst p old new vl hp0 hp hparse hold hnew hnone
   exact ⟨ys, h1, fun cs hc => (h2 cs hc).2⟩
 
-/-! ## `vlan pool`: one list, several keys -/
+/-! ## `vlan pool`: one list, one key -/
 
-/-- The shipped rule `vlan * %logic=huawei.vlandb.multi` (under `vlan pool *`) keys the lines of a
-pool by their **first id**, so `vlan 2 to 5` → `vlan 3 to 5` is processed as two independent
-lists: key `2` loses its line (`undo vlan 2 to 5`), key `3` gains one (`vlan 3 to 5`).  Executed on
-the one VLAN set the pool has, VLANs 3-5 (in both sets) disappear in between (recorded finding
-`huawei:pool:list-keyed-by-first-id:common-vlan-removed-transiently`). -/
-theorem C11_pool_keyed_by_first_id_false :
+/-- The shipped rule under `vlan pool *` is `vlan %logic=huawei.vlandb.multi` (huawei.rul, since
+7afbb71): all `vlan …` lines of a pool form **one** `(rule, key)` group with prefix `vlan`, so the
+`multi` theorems apply to the pool's VLAN set as a whole: exact and never dropping a common VLAN, any
+number of lines, every order of the commands.  (`rev` is not used by `multi`.) -/
+theorem C11_pool_one_list (rev : HRow) (old new : List HRow) (vl : HRow → List Nat)
+    (hparse : ∀ r, r ∈ old ∨ r ∈ new → hParseVlancfg r = .ok ([.w "vlan"], vl r))
+    (hold : Disj vl old) (hnew : Disj vl new) :
+    ∃ ys, hLeaf .multi rev old new = .ok ys ∧
+      ∀ cs, cs.Perm (ys.map (·.row)) →
+        EndsIn (interpH (hDevice .multi [.w "vlan"] rev)) cs (setOf vl old) (setOf vl new) ∧
+        KeepsCommon (interpH (hDevice .multi [.w "vlan"] rev)) cs (setOf vl old) (setOf vl new) :=
+  huawei_core .multi [.w "vlan"] rev old new vl (by decide) hparse hold hnew (fun h => by cases h)
+    (fun h => by cases h) (fun h => by cases h)
+
+/-- Why the repair 7afbb71 matters (a statement about the **old rulebook keying**, not about the
+shipped one): the former rule `vlan * %logic=huawei.vlandb.multi` keyed the lines of a pool by their
+**first id**, so `vlan 2 to 5` → `vlan 3 to 5` was processed as two independent lists: key `2` loses
+its line (`undo vlan 2 to 5`), key `3` gains one (`vlan 3 to 5`).  Executed on the one VLAN set the
+pool has, VLANs 3-5 (in both sets) disappear in between.  Former finding
+`huawei:pool:list-keyed-by-first-id:common-vlan-removed-transiently`; the harness keeps the input as
+a regression.  With one key the same change yields `undo vlan 2` only (example below). -/
+theorem C11_pool_keyed_by_first_id_old_rule_false :
     ∃ ys2 ys3,
       hLeaf .multi [.w "undo", .w "vlan", .n 2] [[.w "vlan", .n 2, .to, .n 5]] [] = .ok ys2 ∧
       hLeaf .multi [.w "undo", .w "vlan", .n 3] [] [[.w "vlan", .n 3, .to, .n 5]] = .ok ys3 ∧
@@ -381,6 +441,27 @@ example : ∃ ys, hLeaf .multiAll (.w "undo" :: exP) exOld exNew = .ok ys ∧
       EndsIn (interpH (hDevice .multiAll exP (.w "undo" :: exP))) cs (setOf idsOf exOld) (setOf idsOf exNew) :=
   C11_huawei_multi_exact .multiAll (by decide) exP (.w "undo" :: exP) exOld exNew idsOf (by decide)
     ex_hyps.1 ex_hyps.2.1 ex_hyps.2.2 (fun _ => rfl)
+/-- `single` with an unchanged sibling line: the shipped rule emits the partial undo, and
+`C11_huawei_exact` applies to these lines (first disjunct; the hypotheses are `wit_hyps`) -/
+example : hLeaf .single wRev wOld wNew = .ok [⟨false, .w "undo" :: (wP ++ [.n 7]), none⟩] := rfl
+example : runDev (interpH (hDevice .single wP wRev)) [.w "undo" :: (wP ++ [.n 7])] (setOf idsOf wOld)
+    = some [2] := rfl
+example : ∃ ys, hLeaf .single wRev wOld wNew = .ok ys ∧
+    ∀ cs, cs.Perm (ys.map (·.row)) →
+      EndsIn (interpH (hDevice .single wP wRev)) cs (setOf idsOf wOld) (setOf idsOf wNew) ∧
+      KeepsCommon (interpH (hDevice .single wP wRev)) cs (setOf idsOf wOld) (setOf idsOf wNew) :=
+  C11_huawei_always_emits_partial .single wP wRev wOld wNew idsOf wit_hyps.1 wit_hyps.2.1 wit_hyps.2.2.1
+    wit_hyps.2.2.2.1 (fun _ => by decide) (fun e => by cases e) (fun _ => wit_hyps.2.2.2.2)
+/-- `single`: the only line of the key goes away → whole-key reverse command, still taken -/
+example : hLeaf .single wRev [wP ++ [.n 2]] [] = .ok [⟨false, wRev, none⟩] := rfl
+/-- `single`: two changed lines on one side → refusal -/
+example : hLeaf .single wRev wOld [] = .error .assertion := rfl
+/-- the pool as one list: `vlan 2 to 5` → `vlan 3 to 5` is just `undo vlan 2` -/
+example : hLeaf .multi [.w "undo", .w "vlan"] [[.w "vlan", .n 2, .to, .n 5]] [[.w "vlan", .n 3, .to, .n 5]]
+    = .ok [⟨false, [.w "undo", .w "vlan", .n 2], none⟩] := rfl
+example : traceDev (interpH (hDevice .multi [.w "vlan"] [.w "undo", .w "vlan"]))
+    [[.w "undo", .w "vlan", .n 2]] [2, 3, 4, 5] = some [[2, 3, 4, 5], [3, 4, 5]] := rfl
+example : hParseVlancfg [.w "vlan", .n 2, .to, .n 5] = .ok ([.w "vlan"], [2, 3, 4, 5]) := rfl
 /-- an unknown command is refused by the device model -/
 example : runDev (interpH (hDevice .multiAll exP (.w "undo" :: exP))) [[.w "shutdown"]] [1] = none := rfl
 /-- collapse / expand on a concrete set, both `tiny_ranges` -/
